@@ -11,7 +11,7 @@ import json, os, re
 import vcommon as V
 
 META = dict(
-    text="Lean 4: an executable model of the code generator (Model/Gen.lean, one function per Generate*) and of the stack VM (Model/VM.lean: every instruction, Run, CallFunction, CallUserFunction+recover, CallResolved/EvalCallExpression nested runs, scopes/closures/lazy arguments by reference in explicit tables, loops, self tail calls) is compared with an independent big-step reference evaluator (Spec/RefEval.lean: frames, closures by environment pointer, no stack/jumps/TCO, effect trace). PROVED, for programs of every size and nesting (Props/C02.lean, lemmas in Proofs/Sim*.lean): (layout) GenerateBegin pops exactly between statements; in cond with any number of arms every brn lands on the next arm and every jump behind the form; in and/or every br lands behind the form; the for-loop layout and its break/continue offsets; (execution) one turn of the Run loop and push/pop/dup/jump/goto/branch as state transformers; the SEGMENT LEMMA for the fragment Fv = literals, symbol reference, def, set, begin (also empty), cond with any number of arms, and/or of any arity, non-empty newScope, letseq, and let with pairwise distinct names, nested arbitrarily: the code compile produces for such an expression, embedded at any offset of any compiled function, run from a VM state related to the reference state (same bindings in every scope/frame, linear stack = static chain, same heap and trace), reaches its own end within code.length instructions with exactly one more value on the data stack - the value Ref.eval returns - and related states again, or ends in a script error with the same trace exactly when Ref.eval reports an error; the same SEGMENT LEMMA for the fragment Fc = Fv with binder names that are not builtin names, plus array literals [e1 ... en], plus for loops (labelled or not) whose init/test/increment/body are in Fc (so without break/continue; nested arbitrarily), plus calls (h a1 ... an) of first-order builtins (+ - * mod < > <= >= == != not cons first rest second list array len append concat aget aset hash hget hset, and the host function trace) with operands in Fc - a call is one VM instruction whose execution compiles every operand at run time into a fresh function object and runs it in a nested Run (EvalCallExpression/nested), then runs the builtin under CallUserFunction; callee first, operands once, left to right, errors propagate with the trace; the SEGMENT LEMMA for the fragment F2 = expressions built from literals, symbol reference, def, set, begin, cond, and, or, non-empty newScope, letseq, let with distinct names, array literals, for loops without break/continue, calls (h a1 ... an) whose head symbol is looked up at run time and may denote a USER FUNCTION (closure object; a wrong number of operands is the script error of both sides), a first-order builtin, or something that cannot be called (the value itself without operands, an error with them), and - anywhere but inside the operands of a call - (fn [p1 ... pn] body...) and (defn name [p1 ... pn] body...) of fixed arity or with a rest parameter [p1 ... pn & rest] (the arguments beyond the fixed ones are packed into a list by wrangleOptargs in CallFunction, resp. by PrepareCall on the self-tail-call path; too few arguments is the script error of both sides), at top level or nested in function bodies to any depth: closures capture the scopes of the functions they were made in (and may assign to captured variables), are values (bound by def, passed as operands, returned, kept in lists) and are called later; recursion included (not in a position compiled as a self tail call); under a relation (Sim.RelF) in which values correspond modulo the numbering of closures (the VM names a closure by its index in the function table, the reference by its index in its closure table: Sim.tr, every first-order builtin commutes with the renaming: Sim.prim_tr) and in which the linear scope stack inside a callee is its own scopes down to the function scope on top of the caller's stack, the rest of the static chain being what stage 2 of LexicalLookupSymbol finds, segment by segment, in the closing stacks of the closure object and of the functions that made it (Sim.ChainF, Sim.FnChainF, Sim.RelF.lexLookup); templates are compiled when the text is loaded and closures made from them at run time (Sim.GenOk, Sim.closure_step); the SEGMENT LEMMA WITH NON-LOCAL EXITS for the fragment Fx = F2 plus, in top-level code (not inside function bodies or call operands), break and continue - plain or labelled - of the enclosing for loops, under begin/cond arms/let/letseq/newScope/nested for bodies (segment_lemma_Fx: a third kind of outcome besides landing and failing - when the reference evaluator yields brk l/cont l the VM has found the loop's LoopStart (the first one carrying its id: Sim.findLoopStart_at), popped exactly the scopes opened inside that loop, and stands on the loop's clearMark resp. continue label with only values above the loop's stack mark (Sim.JumpedF; the offsets are the ones GenerateForLoop stored after compiling the body: Sim.LoopsFinal); one loop with exits against Ref.loop: Sim.XClaimF); SELF TAIL CALLS (F2c, after fix C09-02): a call of the function being compiled, in tail position of its body (under begin/cond/let/letseq/newScope), is compiled as TailGuard, operands inline, PrepareCall, RemoveScope x (scopes+1), Goto 0, and behind the jump the ordinary call; tail_call_simulates (Sim.simT_selfcall): if the guard passes (the name still denotes the running function object) the operands are evaluated once, left to right, the scopes of the activation are dropped, the function is re-entered at instruction 0 in exactly the state CallFunction would leave for an ordinary call of the same closure from the original call site, so the rest of the activation is that application (FClaimU) and its return is the return of this activation (a fourth outcome of the simulation: Sim.RetOut); if the guard fails (name unbound, re-bound to something else, another closure) the ordinary call behind the jump runs; the arity check of the generator (knownFunctions) is tied to the running closure (Sim.KnownOk); the body of every closure object is simulated in tail position (Sim.TClaimB in FClaimU); LAZY PARAMETERS (F3-lazy): fn/defn of F2 and F2c may declare lazy parameters #p and every program may call force - the operand at a lazy position of a call of a closure object is not evaluated at the call: PrepareCallExprArgs (ordinary call) resp. PushLazyArgInstr (inline operands of a self tail call) appends a lazy argument object holding the expression, the live scope stack and the current function, the reference evaluator a thunk holding the expression and the frame (same index in both tables; machine, generator and reference delay the same positions: Sim.isLazyVM_clo, Sim.isLazyVM_eq); the relation carries the two tables (Sim.RelF.lz, Sim.LzOk: the captured stack is the static chain of the thunk's frame, continued along the closing stacks of the function of the call site; memos related); force on a lazy argument (Sim.force_sim, Sim.fclaimG): the expression is compiled at force time, registered as a helper function closed over the captured stack, run in a nested Run with the live stack set aside on `suspended`, the control state restored, the value stored in the same slot of both tables - so it is evaluated at most once, in the environment of the call site, also after the caller returned, from inside another force, and in a later activation reached by a self tail call; force on any other value returns it; wrong arity is the script error of both sides; the proof is by induction on the reference fuel with the segment lemma available at every lower fuel (the thunk's expression is evaluated with less fuel than the call of force); compile_correct_on_F3lazy restates CompileCorrect on these fragments and lazy_semantics_on_F3lazy is C16's LazySemantics restricted to them; APPLY AND MAP (F3): the same fragments may call apply and map and pass builtins as values - (apply f coll) and (map f coll) with f a closure object or a Go builtin (first-order, force, apply, map) and coll an array or a list: the Go builtin calls back into the machine (Apply: arguments pushed - at a lazy position the index of an already forced lazy argument object made for the value, on the reference side a value thunk in the same slot -, CallFunction, a nested Run whose return address names the builtin's pseudo-function, an error restores the captured control state): Sim.aclaim_succ against Ref.applyValues with the closure-application claim FClaimU at lower fuel (the relation is stated for the function that called the builtin: St.withCur, threaded through FClaimU/InAct/RetOut/SimT), Sim.marr_succ and Sim.mlist_succ against Ref.mapArr/Ref.mapList (one call per element, first to last, on the element as the collection holds it at that moment, results in a new array resp. list), Sim.hclaims: every Go builtin of the fragment inside its frame (Sim.BOk/Sim.BClaim) by induction on the reference fuel, Sim.fclaimH_of_bclaim: the call instruction around it; compile_correct_on_F3; NESTED FUNCTIONS: a defn that is a statement (or the last form) of a function body of F2c may itself have a body of F2c, to any depth - self tail calls and loops that break/continue inside nested functions (Sim.Fs, Sim.simF_defnZ, the generator on such bodies: Sim.total_stmt; compile_correct_on_F2c_nested); COMPUTED CALL HEADS: the callee of a call may be any operand expression of the fragment instead of a symbol - ((g 1) 2), ((cond c + -) a b): CallExprInstr evaluates it like an operand (compiled when the instruction runs, nested Run), then proceeds as for a call by name with the value found (Sim.simF_callE, Sim.simF_callV over a closure object / first-order builtin / force, apply, map / array / non-callable value; Sim.SimVia: the instruction stands at one state and its execution goes on from the state after the callee was evaluated; the five call lemmas are stated once for both kinds of callee); compile_correct_on_F2heads; and from them CompileCorrect RESTRICTED TO Fv, TO Fc, TO F2, TO Fx AND TO F2c PROGRAMS (compile_correct_on_Fv, compile_correct_on_Fc, compile_correct_on_F2, compile_correct_on_F2x, compile_correct_on_F2c - F2c = top-level statements of Fx and top-level defns with self tail calls and, in the statements before the last form of their bodies, for loops that break/continue (the loop table facts travel with every closure object: Sim.GenOk now carries Sim.LoopsFinal, Sim.FnsKeep the growth of the loop table): whenever the reference evaluator reports value/error+trace for the program text, VM.runText = LoadExpressions+Run on the generator model reports the same), with explicit fuel bounds on both sides for the effect-free sub-fragment F0c (compile_correct_F0c: VM fuel 3*size+3). NOT PROVED: CompileCorrect for the remaining programs (def CompileCorrectOutsideProved: fn/defn inside an operand of a call or a self call in a directly compiled non-tail position, a self tail call or break/continue in an anonymous fn or in a defn that is not a statement of a function body, substitute, empty newScope); compile_correct_partial proves that CompileCorrect follows from that remainder. The remainder - and the tie of both models to the Go code - is held by the 3-way correspondence of channel `eval` (implementation vs VM model on class/value/trace/four stack depths; implementation vs reference evaluator on class/value/trace) over grammar- and type-directed programs, a malformed stream and an exhaustive small scope. A unit test fixes a few hundred programs; the theorems cover every arm count and nesting of the fragment, the correspondence every generated shape. Constructor freshness (channel `alias`, Props/C02Alias.lean): every evaluation of an array literal or other constructor of a mutable value allocates a fresh object (array_literal_allocates_fresh, array_literal_twice_distinct on the VM model and on the reference), checked on the real code by re-executing one call site with in-place mutation in between.",
+    text="Lean 4: an executable model of the code generator (Model/Gen.lean, one function per Generate*) and of the stack VM (Model/VM.lean: every instruction, Run, CallFunction, CallUserFunction+recover, CallResolved/EvalCallExpression nested runs, scopes/closures/lazy arguments by reference in explicit tables, loops, self tail calls) is compared with an independent big-step reference evaluator (Spec/RefEval.lean: frames, closures by environment pointer, no stack/jumps/TCO, effect trace). PROVED, for programs of every size and nesting (Props/C02.lean, lemmas in Proofs/Sim*.lean): (layout) GenerateBegin pops exactly between statements; in cond with any number of arms every brn lands on the next arm and every jump behind the form; in and/or every br lands behind the form; the for-loop layout and its break/continue offsets; (execution) one turn of the Run loop and push/pop/dup/jump/goto/branch as state transformers; the SEGMENT LEMMA for the fragment Fv = literals, symbol reference, def, set, begin (also empty), cond with any number of arms, and/or of any arity, non-empty newScope, letseq, and let with pairwise distinct names, nested arbitrarily: the code compile produces for such an expression, embedded at any offset of any compiled function, run from a VM state related to the reference state (same bindings in every scope/frame, linear stack = static chain, same heap and trace), reaches its own end within code.length instructions with exactly one more value on the data stack - the value Ref.eval returns - and related states again, or ends in a script error with the same trace exactly when Ref.eval reports an error; the same SEGMENT LEMMA for the fragment Fc = Fv with binder names that are not builtin names, plus array literals [e1 ... en], plus for loops (labelled or not) whose init/test/increment/body are in Fc (so without break/continue; nested arbitrarily), plus calls (h a1 ... an) of first-order builtins (+ - * mod < > <= >= == != not cons first rest second list array len append concat aget aset hash hget hset, and the host function trace) with operands in Fc - a call is one VM instruction whose execution compiles every operand at run time into a fresh function object and runs it in a nested Run (EvalCallExpression/nested), then runs the builtin under CallUserFunction; callee first, operands once, left to right, errors propagate with the trace; the SEGMENT LEMMA for the fragment F2 = expressions built from literals, symbol reference, def, set, begin, cond, and, or, non-empty newScope, letseq, let with distinct names, array literals, for loops without break/continue, calls (h a1 ... an) whose head symbol is looked up at run time and may denote a USER FUNCTION (closure object; a wrong number of operands is the script error of both sides), a first-order builtin, or something that cannot be called (the value itself without operands, an error with them), and - anywhere but inside the operands of a call - (fn [p1 ... pn] body...) and (defn name [p1 ... pn] body...) of fixed arity or with a rest parameter [p1 ... pn & rest] (the arguments beyond the fixed ones are packed into a list by wrangleOptargs in CallFunction, resp. by PrepareCall on the self-tail-call path; too few arguments is the script error of both sides), at top level or nested in function bodies to any depth: closures capture the scopes of the functions they were made in (and may assign to captured variables), are values (bound by def, passed as operands, returned, kept in lists) and are called later; recursion included (not in a position compiled as a self tail call); under a relation (Sim.RelF) in which values correspond modulo the numbering of closures (the VM names a closure by its index in the function table, the reference by its index in its closure table: Sim.tr, every first-order builtin commutes with the renaming: Sim.prim_tr) and in which the linear scope stack inside a callee is its own scopes down to the function scope on top of the caller's stack, the rest of the static chain being what stage 2 of LexicalLookupSymbol finds, segment by segment, in the closing stacks of the closure object and of the functions that made it (Sim.ChainF, Sim.FnChainF, Sim.RelF.lexLookup); templates are compiled when the text is loaded and closures made from them at run time (Sim.GenOk, Sim.closure_step); the SEGMENT LEMMA WITH NON-LOCAL EXITS for the fragment Fx = F2 plus, in top-level code (not inside function bodies or call operands), break and continue - plain or labelled - of the enclosing for loops, under begin/cond arms/let/letseq/newScope/nested for bodies (segment_lemma_Fx: a third kind of outcome besides landing and failing - when the reference evaluator yields brk l/cont l the VM has found the loop's LoopStart (the first one carrying its id: Sim.findLoopStart_at), popped exactly the scopes opened inside that loop, and stands on the loop's clearMark resp. continue label with only values above the loop's stack mark (Sim.JumpedF; the offsets are the ones GenerateForLoop stored after compiling the body: Sim.LoopsFinal); one loop with exits against Ref.loop: Sim.XClaimF); SELF TAIL CALLS (F2c, after fix C09-02): a call of the function being compiled, in tail position of its body (under begin/cond/let/letseq/newScope), is compiled as TailGuard, operands inline, PrepareCall, RemoveScope x (scopes+1), Goto 0, and behind the jump the ordinary call; tail_call_simulates (Sim.simT_selfcall): if the guard passes (the name still denotes the running function object) the operands are evaluated once, left to right, the scopes of the activation are dropped, the function is re-entered at instruction 0 in exactly the state CallFunction would leave for an ordinary call of the same closure from the original call site, so the rest of the activation is that application (FClaimU) and its return is the return of this activation (a fourth outcome of the simulation: Sim.RetOut); if the guard fails (name unbound, re-bound to something else, another closure) the ordinary call behind the jump runs; the arity check of the generator (knownFunctions) is tied to the running closure (Sim.KnownOk); the body of every closure object is simulated in tail position (Sim.TClaimB in FClaimU); LAZY PARAMETERS (F3-lazy): fn/defn of F2 and F2c may declare lazy parameters #p and every program may call force - the operand at a lazy position of a call of a closure object is not evaluated at the call: PrepareCallExprArgs (ordinary call) resp. PushLazyArgInstr (inline operands of a self tail call) appends a lazy argument object holding the expression, the live scope stack and the current function, the reference evaluator a thunk holding the expression and the frame (same index in both tables; machine, generator and reference delay the same positions: Sim.isLazyVM_clo, Sim.isLazyVM_eq); the relation carries the two tables (Sim.RelF.lz, Sim.LzOk: the captured stack is the static chain of the thunk's frame, continued along the closing stacks of the function of the call site; memos related); force on a lazy argument (Sim.force_sim, Sim.fclaimG): the expression is compiled at force time, registered as a helper function closed over the captured stack, run in a nested Run with the live stack set aside on `suspended`, the control state restored, the value stored in the same slot of both tables - so it is evaluated at most once, in the environment of the call site, also after the caller returned, from inside another force, and in a later activation reached by a self tail call; force on any other value returns it; wrong arity is the script error of both sides; the proof is by induction on the reference fuel with the segment lemma available at every lower fuel (the thunk's expression is evaluated with less fuel than the call of force); compile_correct_on_F3lazy restates CompileCorrect on these fragments and lazy_semantics_on_F3lazy is C16's LazySemantics restricted to them; APPLY AND MAP (F3): the same fragments may call apply and map and pass builtins as values - (apply f coll) and (map f coll) with f a closure object or a Go builtin (first-order, force, apply, map) and coll an array or a list: the Go builtin calls back into the machine (Apply: arguments pushed - at a lazy position the index of an already forced lazy argument object made for the value, on the reference side a value thunk in the same slot -, CallFunction, a nested Run whose return address names the builtin's pseudo-function, an error restores the captured control state): Sim.aclaim_succ against Ref.applyValues with the closure-application claim FClaimU at lower fuel (the relation is stated for the function that called the builtin: St.withCur, threaded through FClaimU/InAct/RetOut/SimT), Sim.marr_succ and Sim.mlist_succ against Ref.mapArr/Ref.mapList (one call per element, first to last, on the element as the collection holds it at that moment, results in a new array resp. list), Sim.hclaims: every Go builtin of the fragment inside its frame (Sim.BOk/Sim.BClaim) by induction on the reference fuel, Sim.fclaimH_of_bclaim: the call instruction around it; compile_correct_on_F3; NESTED FUNCTIONS: a defn or an anonymous fn that is a statement (or the last form) of a function body of F2c may itself have a body of F2c, to any depth - self tail calls and loops that break/continue inside nested functions (Sim.Fs, Sim.simF_defnZ, the generator on such bodies: Sim.total_stmt; compile_correct_on_F2c_nested); COMPUTED CALL HEADS: the callee of a call may be any operand expression of the fragment instead of a symbol - ((g 1) 2), ((cond c + -) a b): CallExprInstr evaluates it like an operand (compiled when the instruction runs, nested Run), then proceeds as for a call by name with the value found (Sim.simF_callE, Sim.simF_callV over a closure object / first-order builtin / force, apply, map / array / non-callable value; Sim.SimVia: the instruction stands at one state and its execution goes on from the state after the callee was evaluated; the five call lemmas are stated once for both kinds of callee); compile_correct_on_F2heads; and from them CompileCorrect RESTRICTED TO Fv, TO Fc, TO F2, TO Fx AND TO F2c PROGRAMS (compile_correct_on_Fv, compile_correct_on_Fc, compile_correct_on_F2, compile_correct_on_F2x, compile_correct_on_F2c - F2c = top-level statements of Fx and top-level defns with self tail calls and, in the statements before the last form of their bodies, for loops that break/continue (the loop table facts travel with every closure object: Sim.GenOk now carries Sim.LoopsFinal, Sim.FnsKeep the growth of the loop table): whenever the reference evaluator reports value/error+trace for the program text, VM.runText = LoadExpressions+Run on the generator model reports the same), with explicit fuel bounds on both sides for the effect-free sub-fragment F0c (compile_correct_F0c: VM fuel 3*size+3). NOT PROVED: CompileCorrect for the remaining programs (def CompileCorrectOutsideProved: fn/defn inside an operand of a call or a self call in a directly compiled non-tail position, a self tail call or break/continue in a function that is not a defn/fn statement or last form of a function body (under def/set, in a loop body, in an operand), substitute, empty newScope); compile_correct_partial proves that CompileCorrect follows from that remainder. The remainder - and the tie of both models to the Go code - is held by the 3-way correspondence of channel `eval` (implementation vs VM model on class/value/trace/four stack depths; implementation vs reference evaluator on class/value/trace) over grammar- and type-directed programs, a malformed stream and an exhaustive small scope. A unit test fixes a few hundred programs; the theorems cover every arm count and nesting of the fragment, the correspondence every generated shape. Constructor freshness (channel `alias`, Props/C02Alias.lean): every evaluation of an array literal or other constructor of a mutable value allocates a fresh object (array_literal_allocates_fresh, array_literal_twice_distinct on the VM model and on the reference), checked on the real code by re-executing one call site with in-place mutation in between.",
     note="Trusted: Lean kernel; axioms propext/Classical.choice/Quot.sound. The models are hand-written and tied to zygo/generator.go, vm.go, environment.go, scopes.go, closing.go, stack.go, expressions.go only by the `eval` correspondence (differential testing): the theorems are about Model/Gen.lean + Model/VM.lean vs Spec/RefEval.lean, not about the Go code. The builtin semantics on values (Model/Prim.lean) are shared by model and reference. Partial: the execution half of the simulation is proved for the fragments Fv, Fc, F2, Fx and F2c only (Fc: builtin calls, array literals and for loops without break/continue; F2: defn/fn of fixed arity at any depth, closures capturing locals, calls of user functions by name, recursion, functions as values, with def/set/begin/cond/and/or/newScope/letseq/let/array literals/for loops and builtin calls - no fn/defn inside call operands, no self tail call, no break/continue; lazy parameters #p, force, apply and map included; Fx: F2 plus break/continue - plain or labelled - in top-level loops; F2c: Fx plus top-level defns with self tail calls and loops that break/continue in their bodies); an empty (newScope) is outside the fragment (the reference allocates a frame, the VM pushes nil without a scope: the index-by-index relation does not cover it); a parallel let with a repeated name is outside the fragment and, by Ref.wf, outside the property's domain (implementation/VM model bind the last name first: (let [a 1 a 2] a) = 1, a first-name-first reading gives 2). Infix surface syntax, floats, chars, hashes and `/` are outside the modelled core; break/continue inside call operands are outside the random generators' domain (known finding). The `compile` listing channel is not implemented (jump arithmetic is tied to the Go code through `eval` only).",
     technique="Lean 4 theorems over an executable model of generator+VM and a reference evaluator; 3-way model/spec/implementation correspondence through the line protocol (channels `eval` and `alias`)",
     design_ref="DESIGN.md §7 C02, §13",
@@ -149,7 +149,7 @@ def run(rep):
                               "constructor freshness (Props/C02Alias.lean): array_literal_code_ends_in_constructor, array_literal_allocates_fresh, array_literal_twice_distinct, builtin_never_shrinks_heap, alloc_never_reuses, "
                               "heap_monotone_partial, ref_array_literal_allocates_fresh, ref_const_literal_twice_distinct")
     rep.coverage["not_proved"] = ("CompileCorrectOutsideProved (def ... : Prop in Props/C02.lean): CompileCorrect for programs that are in none of Fv, Fc, F2, Fx, F2c (F2/F2c include lazy parameters, force, apply and map) - "
-                                  "fn/defn inside an operand of a call, a self call in a directly compiled non-tail position, a self tail call or break/continue inside an anonymous fn or inside a defn that is not a statement of a function body (in a loop body, under def/set), "
+                                  "fn/defn inside an operand of a call, a self call in a directly compiled non-tail position, a self tail call or break/continue inside a function that is not a defn/fn statement or last form of a function body (under def/set, in a loop body, in an operand), "
                                   "substitute, empty newScope. "
                                   "Alias.HeapMonotoneAll (def ... : Prop in Proofs/AliasFresh.lean): every instruction of the VM keeps the state closed and never shrinks the data heap (proved for the literal's allocation and for every builtin only). "
                                   "Held by the 3-way `eval` and `alias` correspondences of this run, not by a theorem. The tie of Model/Gen.lean and Model/VM.lean to the Go code is by that correspondence only.")
